@@ -219,6 +219,13 @@ def _bi_len(E, args, kwargs, st, node):
         inj = z3.ForAll([i, j], z3.Implies(z3.And(rng, i != j), ops._tb(b_not(equal(fi, fj)))))
         facts = [n >= 0, n <= L, (n == 0) == (L == 0), (n == 1) == z3.And(L >= 1, same), (n == L) == inj]
         return [(st.assume(*facts), n)]
+    from .values import MapV as _MapV, SetV as _SetV, key_sort as _key_sort
+    if isinstance(v, (_MapV, _SetV)):
+        # cardinality of a (finite) symbolic dict / set: a fresh non-negative integer that is 0 exactly when nothing is in
+        # the domain - all the code under contract uses it for (emptiness tests); T: dicts and sets are finite
+        n = z3.Int(fresh_name("card"))
+        k = z3.Const(fresh_name("ck"), _key_sort(v.key))
+        return [(st.assume(n >= 0, (n == 0) == z3.Not(z3.Exists([k], z3.Select(v.dom, k)))), n)]
     if isinstance(v, ConstDictT()):
         return [(st, len(v.entries))]
     if isinstance(v, LitSet) and v.conds is not None:
